@@ -959,6 +959,21 @@ fn check_pairs(slots: &[Option<LeanString>], models: &[Option<Model>], deep: boo
             if format!("{a}") != format!("{s}") || format!("{a:?}") != format!("{s:?}") || format!("{a:>5}") != format!("{s:>5}") {
                 return Some((vec!["C17"], "fmt_vs_str", format!("slot {i} prints differently from str for {s:?}")));
             }
+            // every borrowed / converted view is the text and nothing else
+            let mut ext = String::from("x");
+            ext.extend([a.clone()]);
+            let views_ok = String::from(a) == *s
+                && String::from(a.clone()) == *s
+                && AsRef::<str>::as_ref(a) == s
+                && AsRef::<[u8]>::as_ref(a) == s.as_bytes()
+                && std::borrow::Borrow::<str>::borrow(a) == s
+                && &**a == s
+                && ext[1..] == *s
+                && a.chars().count() == s.chars().count()
+                && a.is_empty() == s.is_empty();
+            if !views_ok {
+                return Some((vec!["C17", "C01"], "views_vs_str", format!("slot {i}: AsRef/Borrow/Deref/String::from/Extend disagree with the text {s:?}")));
+            }
         }
         for &j in &live {
             if j < i {
